@@ -10,7 +10,8 @@ RULE = ("records as in C02 with 60% of the inputs carrying invalid UTF-8 (lone c
         "(each invalid byte one rune) for string inputs and the UTF-8 length of the runes for rune inputs. non-trivial = chains of >= 2 matches")
 STREAM = 300
 QUICK = [("wide", ["-n", "900", "-profile", "wide", "-rtl", "both", "-invalid", "0.6", "-repl", "1"]), ("frag", ["-n", "400", "-rtl", "both", "-invalid", "0.6", "-repl", "1"]),
-         ("bal", ["-n", "200", "-profile", "balancing", "-rtl", "both", "-invalid", "0.6", "-repl", "1"])]
+         ("bal", ["-n", "200", "-profile", "balancing", "-rtl", "both", "-invalid", "0.6", "-repl", "1"]),
+         ("sparse", ["-n", "200", "-profile", "sparse", "-rtl", "both", "-invalid", "0.6", "-repl", "1"])]
 THOROUGH = [("wide%d" % i, ["-n", "2500", "-profile", "wide", "-rtl", "both", "-invalid", "0.6", "-repl", "1", "-maxlen", "14"]) for i in range(5)] + [("frag%d" % i, ["-n", "1500", "-rtl", "both", "-invalid", "0.6", "-repl", "1"]) for i in range(2)]
 PROP = "C08"
 
